@@ -50,12 +50,15 @@ BIN_FORMS = [
     ("chainsect_r", "({A} {F} _)({B})"), ("apply", "[{A}, {B}] apply {F}"), ("of", "{F} of [{A}, {B}]"),
     ("splat", "{F}(...[{A}, {B}])"), ("splat_tail", "{F}({A}, ...[{B}])"), ("opassign", "x := {A}; x {F}= {B}; x"),
     ("leftjux", "({A} {F})({B})"), ("rightsect", "{F}({B})({A})"), ("rightsect_probe", "{F}({B})"),
+    # sections mixed with splats: a real splat after a hole, a hole after a real splat
+    ("sect_then_splat", "{F}(_, ...[{B}])({A})"), ("splat_then_sect", "{F}(...[{A}], _)({B})"), ("bang_sect_splat", "({F} ! _, ...[{B}])({A})"),
 ]
 UN_FORMS = [("call", "{F}({A})"), ("bang", "{F} ! {A}"), ("dot", "{A} . {F}"), ("then", "{A} then {F}"), ("callsect", "{F}(_)({A})"),
             ("apply", "[{A}] apply {F}"), ("of", "{F} of [{A}]"), ("splat", "{F}(...[{A}])"), ("dotgt", "{A} .> {F}"), ("ltdot", "{F} <. {A}")]
 TER_FORMS = [("call", "{F}({A}, {B}, {C})"), ("bang", "{F} ! {A}, {B}, {C}"), ("sect1", "{F}(_, {B}, {C})({A})"),
              ("sect2", "{F}({A}, _, {C})({B})"), ("sect12", "{F}(_, _, {C})({A}, {B})"), ("sect3", "{F}({A}, {B}, _)({C})"),
-             ("apply", "[{A}, {B}, {C}] apply {F}"), ("of", "{F} of [{A}, {B}, {C}]"), ("splat", "{F}({A}, ...[{B}, {C}])")]
+             ("apply", "[{A}, {B}, {C}] apply {F}"), ("of", "{F} of [{A}, {B}, {C}]"), ("splat", "{F}({A}, ...[{B}, {C}])"),
+             ("sect_then_splat", "{F}(_, ...[{B}, {C}])({A})"), ("sect_mid_splat", "{F}({A}, _, ...[{C}])({B})"), ("splat_then_sect", "{F}(...[{A}, {B}], _)({C})")]
 
 _G = None
 
